@@ -337,6 +337,13 @@ def alongOut : P AlongOut := do
 def handleAlong (inp out : List String) : String :=
   let pin : P (Ms × Pt × Pt × Rat × Bool) := do
     let ms ← msP; let a ← pt; let b ← pt; let m ← rat; let i ← bool; pure (ms, a, b, m, i)
+  let notRun : P XNum := do lit "notrun"; xnum
+  match P.run pin inp, P.run notRun out with
+  | some (ms, a, b, _, _), some d =>
+    if d.isFinite then skip "too-many-steps"
+    else if isPolar a || isPolar b then skip "non-finite-at-pole"
+    else reply true "FAIL:distance-or-bearing-not-finite" ("ms=" ++ ms.tag)
+  | _, _ =>
   match P.run pin inp, P.run alongOut out with
   | some (ms, a, b, max, incl), some o =>
     match fin? o.d, o.pts.mapM finPt?, allFin o.da with
